@@ -49,6 +49,8 @@ type oracles struct {
 
 	lastProcessed []string
 
+	furtherHistory bool
+
 	importFailLeft, failedCreates                 int
 	importWasInFlight, cleanRestartImportInFlight bool
 	preRestart                                    *modelAt
@@ -65,7 +67,7 @@ type oracles struct {
 }
 
 func newOracles(s *Sim) *oracles {
-	return &oracles{importFailLeft: s.plan.ImportFail, s: s, prop: s.plan.Prop, held: map[int]*heldView{}, refCache: map[string][]*oracle.StreamSig{}, convSpawnAttached: map[int]map[string]bool{}, onDemand: map[string]bool{}, stateSigs: map[string]bool{}, firstSeen: map[string]string{}, changedAt: map[string][]int{}, flagged: map[string]bool{}}
+	return &oracles{importFailLeft: s.plan.ImportFail, furtherHistory: s.plan.Prop == "C12", s: s, prop: s.plan.Prop, held: map[int]*heldView{}, refCache: map[string][]*oracle.StreamSig{}, convSpawnAttached: map[int]map[string]bool{}, onDemand: map[string]bool{}, stateSigs: map[string]bool{}, firstSeen: map[string]string{}, changedAt: map[string][]int{}, flagged: map[string]bool{}}
 }
 
 // trigger names the kind of step at which a violation was first observed.
